@@ -340,10 +340,12 @@ def api_pool_lines(pools, codemap="ascii"):
     return lines, inputs
 
 
-def api_behaviour_block(bid, hist, inputs):
+def api_behaviour_block(bid, hist, inputs, fault_k=None):
     lines = ["G " + bid, "B " + bid]
     for e in hist:
         op = e["op"]
+        if e.get("fault") and fault_k is not None:
+            lines.append("K %d" % fault_k)
         if op == "create":
             lines.append("c %d" % e["s"])
         elif op == "free":
